@@ -1561,7 +1561,7 @@ def has_perm(user, perm, x):
             reverse = attr.reverse
             if reverse:
                 reverse_rules = reverse.entity._access_rules_.get(perm)
-                if not reverse_rules: return False
+                if not reverse_rules: continue
                 for reverse_rule in reverse_rules:
                     if user_groups.issuperset(reverse_rule.groups) \
                             and reverse.entity not in reverse_rule.entities_to_exclude \
